@@ -54,6 +54,7 @@ class FakeAtlas:
         self.nonces = set()
         self.seq = 0
         self.once_used = set()     # faults marked "once" that have fired
+        self.seq_pos = {}          # position in a fault sequence ("seq") per request key
         outer = self
 
         class H(socketserver.BaseRequestHandler):
@@ -192,6 +193,14 @@ class FakeAtlas:
             return not close
 
         fault = sc.faults.get(key) if key else None
+        if fault and fault[0] == "seq":
+            # a fault sequence: every served (authenticated) request for this key meets the next fault of the list, the last one for good -
+            # what a client that retries would see (a client that gives up at the first failure only ever meets the first)
+            with self.lock:
+                pos = self.seq_pos.get(key, 0)
+                if rec.get("authorization") or sc.auth == "none":
+                    self.seq_pos[key] = pos + 1
+            fault = fault[1][min(pos, len(fault[1]) - 1)]
         if fault and fault[-1] == "once":
             if key in self.once_used:
                 fault = None
